@@ -2001,6 +2001,7 @@ package xpath
 //@ func (*parser).parsePathExpr
 //@   mode int
 //@   props C06 C10 C17
+//@   ensures[path-on-filter-expr@C10!!] called(parseFilterExpr, 0) ==> ite(called(parseRelativeLocationPath, 0), result == retval(parseRelativeLocationPath, 0) && argval(parseRelativeLocationPath, 0, 0) == retval(parseFilterExpr, 0), ite(called(parseRelativeLocationPath, 1), result == retval(parseRelativeLocationPath, 1) && argval(parseRelativeLocationPath, 1, 0) == retval(newAxisNode, 0) && axisIs(retval(newAxisNode, 0), "descendant-or-self", allNode, "", "", retval(parseFilterExpr, 0)) && is(retval(newAxisNode, 0), *axisNode), result == retval(parseFilterExpr, 0)))     // E/path continues from E; E//path continues from descendant-or-self::node() of E; otherwise the filter expression itself
 //@   requires[depth@C06] p != nil && 0 <= p.d && p.d <= 200
 //@   maypanic
 //@   modifies heap(F:scanner.*), p.d
